@@ -494,6 +494,37 @@ fn check_word(w: &str, st: &mut Stats) {
     }
 }
 
+/// Character classes and token kinds at the two places where the tokenizer special-cases: (1) the character
+/// after a backslash in a string literal — only `\\` and `\"` are escapes, every other character is an
+/// error; every character in 0..=0x3000 and some beyond, alone and inside a longer literal; (2) what follows
+/// `<mantissa>e` and a sign — only a digit word joins into a float, anything else (a string literal, a
+/// group, an identifier, a float, a hex word, a space) leaves three separate tokens.
+fn part_special_positions() -> Stats {
+    let mut st = Stats::new();
+    let mut cps: Vec<u32> = (0..=0x3000).collect();
+    cps.extend([0xfeff, 0xfffd, 0x1f600, 0x10ffff]);
+    for c in cps.into_iter().filter_map(char::from_u32) {
+        for src in [format!("\"\\{}\"", c), format!("\"a\\{}b\" + \"c\"", c), format!("\"\\\\\\{}\"", c)] {
+            check_against_lexer(&src, "escape-sequence", &mut st);
+            st.count("g/escape-sources");
+        }
+    }
+    for mantissa in ["1", "2.5", ".5", "1."] {
+        for e in ["e", "E"] {
+            for sign in ["+", "-"] {
+                for tail in ["\"3\"", "\"10\"", "(3)", " 3", "a", "3.", "3.5", "0x3", "3e2", "3a", "", "-3", "+3", "true", "\"\"", "3 ", "3)", "03", "3_"] {
+                    for (pre, post) in [("", ""), ("a - ", ""), ("(", ")"), ("", " + 1")] {
+                        let src = format!("{pre}{mantissa}{e}{sign}{tail}{post}");
+                        check_against_lexer(&src, "numeric-token-assembly", &mut st);
+                        st.count("g/exponent-tail-sources");
+                    }
+                }
+            }
+        }
+    }
+    st
+}
+
 /// Long literals: strings, identifiers, digit strings and mantissas of every size in `scale::sizes`.
 fn part_scaling(thorough: bool) -> Stats {
     let mut st = Stats::new();
@@ -575,6 +606,7 @@ pub fn run(cfg: &Cfg) -> Report {
     stats.merge(part_doubles(t == Tier::Thorough));
     stats.merge(part_words(t.pick(3, 5)));
     stats.merge(part_scaling(t == Tier::Thorough));
+    stats.merge(part_special_positions());
     // longer float spellings that are known findings are reported through the same matcher
     for w in ["infinity", "Infinity", "INFINITY", "NaN", "Inf"] {
         let mut st = Stats::new();
@@ -608,7 +640,7 @@ pub fn run(cfg: &Cfg) -> Report {
     Report {
         property: ID,
         level: "exploration",
-        rule: format!("(a) every text of length <= {} over a 16-character hostile alphabet, quoted by the reference escaper, alone and in 4 embeddings; (b) every raw source `\"`+w, |w| <= {} over {{\" \\ a n / *}}; (c) every integer below {} in decimal, hex (both digit cases) and with leading zeros, plus 2^k+d and 10^k+d (|d| <= 2) with embeddings; (d) every string of length <= {} over `0 1 5 9 . e E + - x` (token streams) and a pool of doubles (powers of two and ten with neighbours, subnormals, rounding-hard cases) x up to 11 renderings (incl. upper-case `E`, `E+`, `E-`) x 12 embeddings; (e) every word of length <= {} over a 22-character alphabet, and keyword- and number-like words (true, false, inf, nan, infinity, 0x1f, 1e5, ...) in every letter case; (f) scaling families: strings, identifiers, digit strings, mantissas and exponents of n characters for n in 1..20 and up to 129 / 1..40 and up to 400. Oracle: reference lexer/classifier + str::parse. Non-trivial: strings containing quote/backslash/comment characters, raw sources, integers, strings with a float token, float renderings, words classified as literals; every text is enumerated once per part", t.pick(4, 6), t.pick(6, 9), t.pick(1u64 << 14, 1 << 17), t.pick(6, 8), t.pick(3, 5)),
+        rule: format!("(a) every text of length <= {} over a 16-character hostile alphabet, quoted by the reference escaper, alone and in 4 embeddings; (b) every raw source `\"`+w, |w| <= {} over {{\" \\ a n / *}}; (c) every integer below {} in decimal, hex (both digit cases) and with leading zeros, plus 2^k+d and 10^k+d (|d| <= 2) with embeddings; (d) every string of length <= {} over `0 1 5 9 . e E + - x` (token streams) and a pool of doubles (powers of two and ten with neighbours, subnormals, rounding-hard cases) x up to 11 renderings (incl. upper-case `E`, `E+`, `E-`) x 12 embeddings; (e) every word of length <= {} over a 22-character alphabet, and keyword- and number-like words (true, false, inf, nan, infinity, 0x1f, 1e5, ...) in every letter case; (g) special positions: every character in 0..=0x3000 after a backslash inside a string literal (only `\\\\` and `\\\"` are escapes), and 19 kinds of tail after `<mantissa>e` and a sign (a string literal, a group, an identifier, a float, a hex word ... only a digit word joins); (f) scaling families: strings, identifiers, digit strings, mantissas and exponents of n characters for n in 1..20 and up to 129 / 1..40 and up to 400. Oracle: reference lexer/classifier + str::parse. Non-trivial: strings containing quote/backslash/comment characters, raw sources, integers, strings with a float token, float renderings, words classified as literals; every text is enumerated once per part", t.pick(4, 6), t.pick(6, 9), t.pick(1u64 << 14, 1 << 17), t.pick(6, 8), t.pick(3, 5)),
         nontrivial_set: "counter:nontrivial-distinct",
         exhaustive: true,
         bound_completed: "all listed alphabets to the stated lengths".into(),
